@@ -174,3 +174,8 @@ Print Assumptions C17_insert_total.
 Print Assumptions C17_parse_all_fuel_ok.
 Print Assumptions C17_read_message_valid.
 Print Assumptions C17_old_order_not_determined.
+
+(* width of the length prefix in the current source *)
+Theorem C17_tcp_size_width_pinned : (RV.Generated.Params.tcp_size_width = 16)%N.
+Proof. exact tcp_size_width_pinned. Qed.
+Print Assumptions C17_tcp_size_width_pinned.
